@@ -164,6 +164,27 @@ pub fn c10(tier: Tier) -> i32 {
     let n2 = tier.pick(7, 10);
     let (total, acc) = sweep_upto(&alpha, n2, "", "", &f);
     rep.absorb("U-quote-runs", &format!("all strings of length <= {} over {{\", ', \\, LF, a}}", n2), total, true, t0, acc);
+    // every code point class by byte value: all of U+0000..U+07FF (every lead byte C2..DF x every continuation byte), and
+    // a stride through the 3- and 4-byte planes; each alone, after a letter, before a letter and before a quote
+    let t0 = std::time::Instant::now();
+    let mut cps: Vec<char> = (0u32..0x800).filter_map(char::from_u32).collect();
+    cps.extend((0x800u32..0x10000).step_by(tier.pick(61, 7)).filter_map(char::from_u32));
+    cps.extend((0x10000u32..0x110000).step_by(tier.pick(4099, 257)).filter_map(char::from_u32));
+    for edge in [0xD7FFu32, 0xE000, 0xFFFD, 0xFFFE, 0xFFFF, 0x10000, 0x10FFFF, 0xFEFF, 0x2028, 0x2029, 0x85, 0xA0, 0xAA, 0xB5, 0xBA, 0xB2, 0xBD, 0x0663, 0x2460] {
+        if let Some(c) = char::from_u32(edge) {
+            cps.push(c);
+        }
+    }
+    let mut cases: Vec<String> = Vec::new();
+    for c in cps {
+        cases.push(c.to_string());
+        cases.push(format!("a{}", c));
+        cases.push(format!("{}a", c));
+        cases.push(format!("{}\"", c));
+        cases.push(format!("{}\\", c));
+    }
+    let (total, acc) = crate::universe::sweep_list(&cases, &f);
+    rep.absorb("U-char", "every code point U+0000..U+07FF and a stride through the higher planes (plus edges), alone and next to a letter / quote / backslash", total, true, t0, acc);
     // vacuity: every style must have been offered at least once
     for style in ["value:literal", "value:ml_literal", "value:basic_pretty", "value:ml_basic_pretty", "key:unquoted", "key:literal", "key:basic_pretty"] {
         if rep.acc.hist.get(style).copied().unwrap_or(0) == 0 {
